@@ -433,26 +433,40 @@ func (r *runner) setup() {
 		table.FibStrategyTable.SetStrategyEnc(mkName(s.Prefix), mkName(stratFull(s.Name)))
 		m.strat[s.Prefix] = s.Name
 	}
-	r.th = fw.NewThread(0)
-	fw.Threads = []*fw.Thread{r.th}
-	dispatch.InitializeFWThreads([]dispatch.FWThread{r.th})
+	fw.Threads = make([]*fw.Thread, c.Thread+1)
+	dths := make([]dispatch.FWThread, c.Thread+1)
+	for i := range fw.Threads {
+		fw.Threads[i] = fw.NewThread(i)
+		dths[i] = fw.Threads[i]
+	}
+	r.th = fw.Threads[c.Thread]
+	dispatch.InitializeFWThreads(dths)
+	if c.Thread != 0 {
+		r.ctx.Probe("forwarding-thread-other-than-0")
+	}
 	r.pitcs = r.th.VerifPitCS().(*table.PitCsTree)
 	r.signer = sec.NewSha256Signer()
-	go r.th.Run()
+	for _, th := range fw.Threads {
+		go th.Run()
+	}
 	synctest.Wait()
 }
 
 func (r *runner) shutdown() {
 	core.ShouldQuit = true
-	r.th.TellToQuit()
-	<-r.th.HasQuit
-	// one reaper timer may still be pending; let it fire and take its signal
+	for _, th := range fw.Threads {
+		th.TellToQuit()
+		<-th.HasQuit
+	}
+	// one reaper timer may still be pending per thread; let it fire and take its signal
 	for i := 0; i < 3; i++ {
 		time.Sleep(200 * time.Millisecond)
 		synctest.Wait()
-		select {
-		case <-r.pitcs.UpdateTimer():
-		default:
+		for _, th := range fw.Threads {
+			select {
+			case <-th.VerifPitCS().(*table.PitCsTree).UpdateTimer():
+			default:
+			}
 		}
 	}
 	core.ShouldQuit = false
@@ -1069,7 +1083,7 @@ func (r *runner) doInterest(op *Op) {
 		// (also for a consumer-chosen next hop: it is forwarded like any other, with this forwarder's token and an
 		// out-record - until fix 44b9d1c it left with the downstream's own token and without a record)
 		for _, em := range upstream {
-			if len(em.token) != 6 || em.token[0] != 0 || em.token[1] != 0 {
+			if len(em.token) != 6 || int(em.token[0])<<8|int(em.token[1]) != r.sc.Config.Thread {
 				r.fail("C01/upstream-token-malformed", "", "upstream copy of %s carries token %x (want 6 bytes: thread id, entry token)", op.Name, em.token)
 				continue
 			}
